@@ -1960,6 +1960,76 @@ func (c *Ctx) RippleCarry(pkgs ...string) []core.Ob {
 				obs = append(obs, o)
 			}
 		}
+		// a loop that complements every byte of a slice in place is the first half of a multi-byte
+		// negation (-x = ^x + 1): the +1 has to be able to travel through all bytes, so the function
+		// also has a loop with a byte increment whose continuation hangs on a byte compared with
+		// 0 / 0xff (the carry). Adding the one to the last byte only loses the carry out of it.
+		loops := naturalLoops(fn)
+		inLoop := func(b *ssa.BasicBlock) bool {
+			for _, lp := range loops {
+				if lp.body[b] {
+					return true
+				}
+			}
+			return false
+		}
+		var compl *ssa.Store
+		carryLoop := false
+		for _, lp := range loops {
+			hasInc, hasCmp := false, false
+			for b := range lp.body {
+				for _, in := range b.Instrs {
+					switch x := in.(type) {
+					case *ssa.Store:
+						if bt, ok := x.Val.Type().Underlying().(*types.Basic); !ok || bt.Kind() != types.Uint8 {
+							continue
+						}
+						if _, isElem := x.Addr.(*ssa.IndexAddr); !isElem {
+							continue
+						}
+						switch v := x.Val.(type) {
+						case *ssa.UnOp:
+							if ld, ok := v.X.(*ssa.UnOp); ok && v.Op == token.XOR && ld.Op == token.MUL && sameElem(ld.X, x.Addr) {
+								compl = x
+							}
+						case *ssa.BinOp:
+							ld, isLd := v.X.(*ssa.UnOp)
+							kv, isK := constIntVal(v.Y)
+							if isLd && isK && ld.Op == token.MUL && sameElem(ld.X, x.Addr) {
+								if v.Op == token.XOR && kv == 0xff {
+									compl = x
+								}
+								if v.Op == token.ADD && kv == 1 {
+									hasInc = true
+								}
+							}
+						}
+					case *ssa.BinOp:
+						if x.Op != token.EQL && x.Op != token.NEQ {
+							continue
+						}
+						ld, isLd := x.X.(*ssa.UnOp)
+						kv, isK := constIntVal(x.Y)
+						if isLd && isK && ld.Op == token.MUL && (kv == 0 || kv == 0xff) {
+							if _, isElem := ld.X.(*ssa.IndexAddr); isElem {
+								hasCmp = true
+							}
+						}
+					}
+				}
+			}
+			if hasInc && hasCmp {
+				carryLoop = true
+			}
+		}
+		if compl != nil && inLoop(compl.Block()) {
+			o := core.Ob{Rule: "R-ORDER", Key: "ripple-carry:" + core.FnName(fn) + "#negation", Pos: c.P.Pos(compl.Pos()), Func: core.FnName(fn), Armed: true, Status: core.OK,
+				Want: "a byte-wise negation (complement every byte, add one) lets the one carry through the bytes: a loop increments a byte and goes on according to a byte compared with 0 or 0xff"}
+			if !carryLoop {
+				o.Status, o.Got = core.Violated, "every byte is complemented in a loop but no loop propagates the added one from byte to byte: the carry out of the lowest byte is lost (digests ending in a zero byte)"
+			}
+			obs = append(obs, o)
+		}
 	}
 	return obs
 }
@@ -2912,6 +2982,192 @@ func (c *Ctx) BitWidthInverse() []core.Ob {
 			obs = append(obs, o)
 		}
 	}
+	// The direct class: a container that has outgrown its indirect palettes stores registry ids with
+	// the registry width W (a start-up value, bits.Len of the registry size); ChunkToSave copies those
+	// longs as they are. Reading them back needs W exactly - the stride, not only the count per long -
+	// so the constructor takes the width of this class from the configuration, or the recovery
+	// returns W for the longs W-bit values need. W is determined from the tree (registryWidth).
+	for _, k := range []struct {
+		ctor string
+		n    int64
+	}{{"level.NewStatesPaletteContainerWithData", 4096}, {"level.NewBiomesPaletteContainerWithData", 64}} {
+		ctor := c.Fn(k.ctor)
+		bitsFn, _ := c.paletteCfgFns(ctor)
+		o := core.Ob{Rule: "T-BSINV", Key: fmt.Sprintf("values=%d:direct", k.n), Armed: true, Status: core.OK,
+			Want: fmt.Sprintf("longs holding %d registry ids of the direct width are read back by %s with that width", k.n, k.ctor)}
+		if ctor == nil || bitsFn == nil {
+			o.Status, o.Got = core.Violated, "the constructor or its configuration's width method was not found"
+			obs = append(obs, o)
+			continue
+		}
+		o.Pos, o.Func = c.P.Pos(ctor.Pos()), core.FnName(ctor)
+		// the registry width variable: what bits(n) returns for a large n
+		var g *ssa.Global
+		{
+			ev := &skelEval{c: c, sizes: c.TLG().sizesOf(bitsFn)}
+			ev.onInstr = func(in ssa.Instruction, get func(ssa.Value) *big.Int) {
+				if r, ok := in.(*ssa.Return); ok && len(r.Results) == 1 && get(r.Results[0]) == nil {
+					if ld, ok := stripConv(r.Results[0]).(*ssa.UnOp); ok && ld.Op == token.MUL {
+						g, _ = ld.X.(*ssa.Global)
+					}
+				}
+			}
+			args := make([]*big.Int, len(bitsFn.Params))
+			args[len(args)-1] = bi(1000)
+			if v, err := ev.run(bitsFn, args); err == nil && v != nil {
+				// a constant direct width
+				g = nil
+				o.Got = fmt.Sprintf("constant direct width %s", v)
+			}
+		}
+		var w int64
+		if g != nil {
+			rw, err := c.registryWidth(g)
+			if err != nil {
+				o.Status, o.Got = core.Violated, "the direct width cannot be determined from the tree: "+err.Error()
+				obs = append(obs, o)
+				continue
+			}
+			w = rw.bits
+			o.Got = fmt.Sprintf("direct width %s = %d (%s)", g.String(), w, rw.how)
+		} else {
+			ev := &skelEval{c: c, sizes: c.TLG().sizesOf(bitsFn)}
+			args := make([]*big.Int, len(bitsFn.Params))
+			args[len(args)-1] = bi(1000)
+			v, err := ev.run(bitsFn, args)
+			if err != nil || v == nil {
+				o.Status, o.Got = core.Violated, "the direct width is neither a number nor a registry width"
+				obs = append(obs, o)
+				continue
+			}
+			w = v.Int64()
+		}
+		// does the constructor take the storage width from the configuration? (the width argument of the
+		// storage constructor has a leaf that is the registry variable or a call of the width method)
+		fromCfg := false
+		for _, b := range ctor.Blocks {
+			for _, in := range b.Instrs {
+				call, ok := in.(*ssa.Call)
+				if !ok || len(call.Call.Args) != 3 {
+					continue
+				}
+				callee := call.Call.StaticCallee()
+				if callee == nil || !inPkgs(callee, "level") || callee == inv || callee == size {
+					continue
+				}
+				seen := map[ssa.Value]bool{}
+				var walk func(v ssa.Value)
+				walk = func(v ssa.Value) {
+					v = stripConv(v)
+					if seen[v] {
+						return
+					}
+					seen[v] = true
+					switch x := v.(type) {
+					case *ssa.Phi:
+						for _, e := range x.Edges {
+							walk(e)
+						}
+					case *ssa.UnOp:
+						if x.Op == token.MUL && g != nil && x.X == ssa.Value(g) {
+							fromCfg = true
+						}
+					case *ssa.Call:
+						if x.Call.StaticCallee() == bitsFn {
+							fromCfg = true
+						}
+					}
+				}
+				walk(call.Call.Args[0])
+			}
+		}
+		// the saved longs and the width go into the storage constructor together, and it panics when
+		// they disagree: the width is recovered from the number of longs (so they cannot), or the
+		// number of longs is checked before the call
+		{
+			p := core.Ob{Rule: "T-BSINV", Key: fmt.Sprintf("values=%d:width-fits-saved-longs", k.n), Pos: c.P.Pos(ctor.Pos()), Func: core.FnName(ctor), Armed: true, Status: core.OK,
+				Want: "the width handed to the storage constructor with the saved longs is recovered from their number (or their number is checked first): the constructor panics on a mismatch"}
+			for _, b := range ctor.Blocks {
+				for _, in := range b.Instrs {
+					call, ok := in.(*ssa.Call)
+					if !ok || len(call.Call.Args) != 3 {
+						continue
+					}
+					callee := call.Call.StaticCallee()
+					if callee == nil || !inPkgs(callee, "level") || callee == inv || callee == size || isNilConst(call.Call.Args[2]) {
+						continue
+					}
+					if _, isSl := call.Call.Args[2].Type().Underlying().(*types.Slice); !isSl {
+						continue
+					}
+					// every source of the width is the recovery applied to len(data), or a constant (the
+					// normalised width of a class)
+					fromInv, other := false, false
+					seen := map[ssa.Value]bool{}
+					var walk func(v ssa.Value)
+					walk = func(v ssa.Value) {
+						v = stripConv(v)
+						if seen[v] {
+							return
+						}
+						seen[v] = true
+						switch x := v.(type) {
+						case *ssa.Phi:
+							for _, e := range x.Edges {
+								walk(e)
+							}
+						case *ssa.Const:
+						case *ssa.Call:
+							ok := false
+							if x.Call.StaticCallee() == inv {
+								for _, a := range x.Call.Args {
+									if isLenOf(a, call.Call.Args[2]) {
+										ok = true
+									}
+								}
+							}
+							if ok {
+								fromInv = true
+							} else {
+								other = true
+							}
+						default:
+							other = true
+						}
+					}
+					walk(call.Call.Args[0])
+					fromInv = fromInv && !other
+					if !fromInv && !lenGuarded(ctor, b, call.Call.Args[2]) {
+						p.Status, p.Got = core.Violated, "the width passed at "+c.P.Pos(call.Pos())+" does not come from the number of saved longs and that number is not checked: saved data whose length does not fit the chosen width panics in "+callee.Name()
+					}
+				}
+			}
+			obs = append(obs, p)
+		}
+		if fromCfg {
+			o.Got += "; the constructor takes the width from the configuration"
+			obs = append(obs, o)
+			continue
+		}
+		ev := &skelEval{c: c, sizes: sizes}
+		longs, err := ev.run(size, []*big.Int{bi(w), bi(k.n)})
+		if err != nil || longs == nil {
+			o.Status, o.Got = core.Violated, fmt.Sprintf("%s(%d, %d) cannot be evaluated: %v", size.Name(), w, k.n, err)
+			obs = append(obs, o)
+			continue
+		}
+		ev2 := &skelEval{c: c, sizes: sizes}
+		got, err := ev2.run(inv, []*big.Int{bi(k.n), longs})
+		switch {
+		case err != nil || got == nil:
+			o.Status, o.Got = core.Violated, fmt.Sprintf("%s(%d, %s) cannot be evaluated: %v", inv.Name(), k.n, longs, err)
+		case got.Int64() != w:
+			o.Status, o.Got = core.Violated, fmt.Sprintf("%s; the %s longs that hold %d ids of %d bits are read back as %s-bit values: every position of a section that uses direct ids comes back wrong", o.Got, longs, k.n, w, got)
+		default:
+			o.Got += fmt.Sprintf("; %s longs -> %s bits", longs, got)
+		}
+		obs = append(obs, o)
+	}
 	return obs
 }
 
@@ -3100,7 +3356,107 @@ func (c *Ctx) RegionSlotOffsets() []core.Ob {
 			break
 		}
 	}
-	return []core.Ob{o}
+	obs := []core.Ob{o}
+	// Any other method of the region that computes a header position from two coordinates (a
+	// timestamp-only writer, say): called from an exported method with that method's (x, z), every
+	// write it places inside the 8 KiB header goes to one of the chunk's own two slots.
+	for _, m := range methodsOfType(c, "save/region.Region") {
+		if m == sh || len(m.Params) < 3 || (m.Object() != nil && m.Object().Exported()) {
+			continue
+		}
+		mul := false
+		for _, b := range m.Blocks {
+			for _, in := range b.Instrs {
+				if bo, ok := in.(*ssa.BinOp); ok && (bo.Op == token.MUL || bo.Op == token.SHL) {
+					for _, pr := range [][2]ssa.Value{{bo.X, bo.Y}, {bo.Y, bo.X}} {
+						k, isK := constIntVal(pr[1])
+						if _, isP := stripConv(pr[0]).(*ssa.Parameter); isP && isK && (k == 32 && bo.Op == token.MUL || k == 5 && bo.Op == token.SHL && pr[0] == bo.X) {
+							mul = true
+						}
+					}
+				}
+			}
+		}
+		if !mul {
+			continue
+		}
+		// the roles of its parameters, from a call site in an exported method (x, z int, ...)
+		px, pz := -1, -1
+		for _, caller := range methodsOfType(c, "save/region.Region") {
+			if caller.Object() == nil || !caller.Object().Exported() || len(caller.Params) < 3 {
+				continue
+			}
+			for _, ci := range callsIn(caller, func(_ string, cc *ssa.CallCommon) bool {
+				g := cc.StaticCallee()
+				return g != nil && core.Origin(g) == m
+			}) {
+				for i, a := range ci.Common().Args {
+					switch stripConv(a) {
+					case ssa.Value(caller.Params[1]):
+						px = i
+					case ssa.Value(caller.Params[2]):
+						pz = i
+					}
+				}
+			}
+		}
+		if px < 1 || pz < 1 {
+			continue
+		}
+		p := core.Ob{Rule: "T-REGIDX", Key: m.Name() + ":slot-offsets", Pos: c.P.Pos(m.Pos()), Func: core.FnName(m), Armed: true, Status: core.OK,
+			Want: "called for chunk (x, z), " + m.Name() + " writes inside the header only at 4*(32*z+x) or 4096+4*(32*z+x)"}
+		msizes := c.TLG().sizesOf(m)
+		for _, pr := range [][2]int64{{0, 0}, {1, 0}, {0, 1}, {5, 7}, {31, 30}} {
+			ev := &skelEval{c: c, sizes: msizes, deep: true}
+			var got []int64
+			ev.onInstr = func(in ssa.Instruction, get func(ssa.Value) *big.Int) {
+				ci, ok := in.(ssa.CallInstruction)
+				if !ok {
+					return
+				}
+				nm := calleeName(ci.Common())
+				if !(strings.HasSuffix(nm, ".WriteAt") || strings.HasSuffix(nm, ".Seek")) || !ci.Common().IsInvoke() {
+					if g := ci.Common().StaticCallee(); g == nil || !c.P.InModule(g) || !positionedWriter(g) {
+						return
+					}
+				}
+				for _, a := range ci.Common().Args {
+					if bt, ok := a.Type().Underlying().(*types.Basic); ok && bt.Kind() == types.Int64 {
+						if v := get(a); v != nil && v.IsInt64() {
+							got = append(got, v.Int64())
+						}
+					}
+				}
+			}
+			ev.preset = map[ssa.Value]*big.Int{}
+			for _, b := range m.Blocks {
+				for _, in := range b.Instrs {
+					if cmp, ok := in.(*ssa.BinOp); ok && (isNilConst(cmp.X) || isNilConst(cmp.Y)) {
+						if cmp.Op == token.NEQ {
+							ev.preset[cmp] = bi(0)
+						} else if cmp.Op == token.EQL {
+							ev.preset[cmp] = bi(1)
+						}
+					}
+				}
+			}
+			args := make([]*big.Int, len(m.Params))
+			args[px], args[pz] = bi(pr[0]), bi(pr[1])
+			_, _ = ev.run(m, args)
+			w1 := 4 * (32*pr[1] + pr[0])
+			for _, g := range got {
+				if g >= 0 && g < 8192 && g != w1 && g != 4096+w1 {
+					p.Status = core.Violated
+					p.Got = fmt.Sprintf("for chunk (x, z) = (%d, %d) it writes at header offset %d; the chunk's own slots are %d and %d", pr[0], pr[1], g, w1, 4096+w1)
+				}
+			}
+			if p.Status == core.Violated {
+				break
+			}
+		}
+		obs = append(obs, p)
+	}
+	return obs
 }
 
 // ---------------------------------------------------------------------------
@@ -3974,7 +4330,21 @@ func (c *Ctx) DrainBeforeClose(pkg string) []core.Ob {
 					continue
 				}
 				if _, isCall := cmp.X.(*ssa.Call); !isCall {
-					continue
+					// `e := q.Front(); for e == nil && !closed { Wait(); e = q.Front() }`: the tested value is
+					// the call result of whichever way the test was reached
+					phi, isPhi := cmp.X.(*ssa.Phi)
+					if !isPhi || len(phi.Edges) == 0 {
+						continue
+					}
+					allCalls := true
+					for _, e := range phi.Edges {
+						if _, isCall := e.(*ssa.Call); !isCall {
+							allCalls = false
+						}
+					}
+					if !allCalls {
+						continue
+					}
 				}
 				switch {
 				case cmp.Op == token.NEQ && isNilConst(cmp.Y):
